@@ -5,7 +5,8 @@ import os, sys, json, subprocess, glob, re
 ROOT = os.path.dirname(os.path.dirname(os.path.abspath(__file__)))
 # which checks are expected to see a seed (first = own property); derived from what the change breaks
 ALSO = {"C01-2": ["C11"], "C02-2": ["C01"], "C09-1": ["C04"], "C09-2": ["C12"], "C10-1": ["C01"], "C19-2": ["C07"], "C13-1": [], "C06-2": ["C05"],
-        "C01-3": ["C11"], "C08-3": ["C07"], "C09-4": ["C10"], "C10-3": ["C01", "C02"], "C13-3": ["C15"], "C18-3": ["C08"]}
+        "C01-3": ["C11"], "C08-3": ["C07"], "C09-4": ["C10"], "C10-3": ["C01", "C02"], "C13-3": ["C15"], "C18-3": ["C08"],
+        "C01-5": ["C11"], "C01-6": ["C10"], "C02-5": ["C03"], "C05-6": ["C15"], "C08-5": ["C06", "C17"], "C10-5": ["C01", "C02"]}
 TIER = {"C10-1/C01": "quick"}
 
 
